@@ -87,3 +87,37 @@ class Widening(Transform):
 
     def inverse(self, inputs, context=None):
         return inputs * self.bound, inputs.new_zeros(inputs.shape[0])
+
+
+class ModeFlip(Transform):
+    def __init__(self, net):
+        super().__init__()
+        self.net = net
+
+    def inverse(self, inputs, context=None):
+        was_training = self.net.training
+        self.net.eval()
+        try:
+            outputs = self.net(inputs)
+        finally:
+            self.net.train(was_training)
+        return outputs, inputs.new_zeros(inputs.shape[0])
+
+
+_GRID = {}
+
+
+def _grid(num, like):
+    key = (num, like.dtype, like.device)
+    if key not in _GRID:
+        _GRID[key] = torch.linspace(0, 1, num, dtype=like.dtype, device=like.device)
+    return _GRID[key]
+
+
+class Clip(Transform):
+    def forward(self, inputs, context=None):
+        eps = 1e-6
+        if inputs.min() < torch.finfo(inputs.dtype).tiny:
+            raise ValueError("inputs must be positive")
+        outputs = torch.log(torch.clamp(inputs, eps, 1 - eps))
+        return outputs, -outputs.sum(-1)
